@@ -830,6 +830,7 @@ def stepAll (d : DW) (line : String) : DW × String :=
     (d, out)
   | ["scribble"] => (d, "ok")    -- a third party writes into the arrays a composite handed out: the composite's own business until its next update
   | ["badseq"] => (d, "raise")   -- `Schedule.from_job_sequences` on sequences that admit no schedule: a validation error, nothing else happens
+  | ["stamp"] => (d, "ok")       -- the caller writes notes into `Schedule.metadata`: a dictionary of the user's, no part of the state
   | ["xform"] => (d, "ok")       -- instance transformations applied to the instance produce NEW instances: nothing changes here
   | ["disp", j, p, m] =>
     let (w', out) := step d.w line
